@@ -22,7 +22,8 @@ Seeds == { <<38, 97, 109, 112, 59>>, <<38, 35, 51, 57, 59>>, <<38, 108, 116, 59,
 
 Positions == {"print", "afterfilter", "beforefilter", "apply", "macro", "include", "ifcond", "set", "concat",
               "afterraw", "afterrawtrim", "twice", "twicetrim", "applytwice", "settwice", "mixed",
-              "nestedchain", "nestedarg", "nestedboth", "sandboxdefault", "foreign", "forseq"}
+              "nestedchain", "nestedarg", "nestedboth", "sandboxdefault", "foreign", "forseq",
+              "litdefault", "litformat", "litreplace", "applychain", "applychain2", "applyargs"}
 OtherName(f) == IF f = "e" THEN "escape" ELSE "e"
 
 \* program for filter name f applied to variable s in position pos; pre/post are the
@@ -55,6 +56,14 @@ Prog(pos, f) ==
       [] pos = "sandboxdefault" -> ("main" :> <<Text(<<91>>), Include(LS(NT.t1), Lit(Null), FALSE, FALSE, FALSE, TRUE), Text(<<93>>)>>) @@ ("t1" :> <<PrintS(Filt(f, Var("s"), <<>>))>>)
       [] pos = "foreign"      -> ("main" :> <<Text(<<91>>), PrintS(Filt(f, Var("s"), <<>>)), Text(<<93>>)>>)
       [] pos = "forseq"       -> ("main" :> <<Text(<<91>>), For1("i", Arr(<<Var("s")>>), <<PrintS(Filt(f, Var("i"), <<>>))>>), Text(<<93>>)>>)
+      \* the subject of the chain is a literal, the data arrive through an argument (and differ from render to render)
+      [] pos = "litdefault"   -> ("main" :> <<Text(<<91>>), PrintS(Filt(f, Filt("default", LS(<<>>), <<Var("s")>>), <<>>)), Text(<<93>>)>>)
+      [] pos = "litformat"    -> ("main" :> <<Text(<<91>>), PrintS(Filt(f, Filt("format", LS(<<37, 115>>), <<Var("s")>>), <<>>)), Text(<<93>>)>>)
+      [] pos = "litreplace"   -> ("main" :> <<Text(<<91>>), PrintS(Filt(f, Filt("replace", LS(<<81>>), <<LS(<<81>>), Var("s")>>), <<>>)), Text(<<93>>)>>)
+      \* (raw source: a chain of filters, a filter with arguments on the apply tag -- constructs the engine may refuse)
+      [] pos = "applychain"   -> ("main" :> <<Text(<<91>>), RawStmt(<<W("{% apply trim|"), W(f), W(" %}{{ s }}{% endapply %}")>>), Text(<<93>>)>>)
+      [] pos = "applychain2"  -> ("main" :> <<Text(<<91>>), RawStmt(<<W("{% apply raw|trim|"), W(f), W(" %}{{ s }}{% endapply %}")>>), Text(<<93>>)>>)
+      [] pos = "applyargs"    -> ("main" :> <<Text(<<91>>), RawStmt(<<W("{% apply "), W(f), W("('html') %}{{ s }}{% endapply %}")>>), Text(<<93>>)>>)
       [] pos = "concat"       -> ("main" :> <<Text(<<91>>), PrintS(Bin("~", Filt(f, Var("s"), <<>>), LS(<<122>>))), Text(<<93>>)>>)
 Pre(pos)  == IF pos = "macro" THEN <<91, 60>> ELSE <<91>>
 Post(pos) == CASE pos = "macro" -> <<62, 93>> [] pos = "concat" -> <<122, 93>> [] OTHER -> <<93>>
@@ -65,14 +74,23 @@ WholeIsD(pos, v) == pos = "beforefilter" /\ TextOf(v) = <<>>
 \* non-string values whose text form holds markup
 Markup == {<<60, 98, 62>>, <<39, 120>>, <<97, 38, 98>>, <<34>>}
 GoValues == {VGo(k, m) : k \in {"bytes", "named", "stringer", "err"}, m \in Markup}
-Values == {VS(s) : s \in Strs(MaxLen) \cup Seeds} \cup {VI(5), VI(-3), Null} \cup GoValues
+\* integers beyond the range of int64 / at its ends
+BigInts == {VBig(<<57, 50, 50, 51, 51, 55, 50, 48, 51, 54, 56, 53, 52, 55, 55, 53, 56, 48, 56>>),       \* 9223372036854775808
+            VBig(<<49, 56, 52, 52, 54, 55, 52, 52, 48, 55, 51, 55, 48, 57, 53, 53, 49, 54, 49, 53>>),    \* 18446744073709551615
+            VBig(<<57, 50, 50, 51, 51, 55, 50, 48, 51, 54, 56, 53, 52, 55, 55, 53, 56, 48, 55>>),        \* 9223372036854775807
+            VBig(<<45, 57, 50, 50, 51, 51, 55, 50, 48, 51, 54, 56, 53, 52, 55, 55, 53, 56, 48, 56>>)}   \* -9223372036854775808
+Values == {VS(s) : s \in Strs(MaxLen) \cup Seeds} \cup {VI(5), VI(-3), Null} \cup GoValues \cup BigInts
 PrintOnly == {VS(s) : s \in Strs(MaxLenPrint) \ Strs(MaxLen)}
-Cases == {[pos |-> p, v |-> v] : p \in Positions, v \in Values} \cup {[pos |-> "print", v |-> v] : v \in PrintOnly}
+\* (what the format filter makes of a value that is not a string is Go's business: %!s(int=5))
+Cases == {c \in {[pos |-> p, v |-> v] : p \in Positions, v \in Values} : c.pos = "litformat" => c.v.t = "str"} \cup {[pos |-> "print", v |-> v] : v \in PrintOnly}
 
 \* (the policy the engine provides by default allows escape -- so the documentation -- and hence its alias)
 Ref(c, f) == Render(MkW(Prog(c.pos, f), {"escape", "e"}, {}, NoFault), "main", ("s" :> c.v))
 
+MayFail == {"applychain", "applychain2", "applyargs"}
+\* ("rerender": the same engine renders again with another value of s; a fresh engine decides what that must give)
 RunOpts(pos) == CASE pos = "sandboxdefault" -> [defaultpolicy |-> TRUE]
+                  [] pos \in {"litdefault", "litformat", "litreplace", "print", "set", "macro"} -> [rerender |-> ("s" :> VS(<<60, 122, 62>>))]
                   [] pos = "foreign" -> [foreign |-> {"e", "escape", "trim", "raw"}]
                   [] OTHER -> EmptyFn
 CaseOf(c) ==
@@ -80,11 +98,12 @@ CaseOf(c) ==
      tags |-> {"pos:" \o c.pos, "vt:" \o c.v.t},
      entry |-> "main", ctx |-> ("s" :> c.v), rel |-> "same",
      aux |-> [in |-> InText(c.pos, c.v), pre |-> Pre(c.pos), post |-> Post(c.pos), isd |-> WholeIsD(c.pos, c.v),
-              twice |-> c.pos \in {"twice", "twicetrim", "applytwice", "settwice", "mixed", "nestedboth"}],
+              twice |-> c.pos \in {"twice", "twicetrim", "applytwice", "settwice", "mixed", "nestedboth"},
+              mayfail |-> c.pos \in MayFail],
      runs |-> <<[label |-> "escape", tp |-> Sources(Prog(c.pos, "escape"), LMin), xcalls |-> [id \in {} |-> 0]] @@ RunOpts(c.pos),
                 [label |-> "e", tp |-> Sources(Prog(c.pos, "e"), LMin), xcalls |-> [id \in {} |-> 0]] @@ RunOpts(c.pos)>>,
      \* the exact spelling of a reference is not fixed by the property: the output is judged by Trace_C07
-     expect |-> [ok |-> TRUE, out |-> <<>>, noout |-> TRUE, err |-> "", calls |-> [id \in {} |-> 0]]]
+     expect |-> [ok |-> TRUE, out |-> <<>>, noout |-> TRUE, err |-> "", calls |-> [id \in {} |-> 0], anyoutcome |-> c.pos \in MayFail]]
 
 Parts == Positions
 Init == cs \in {[part |-> p] : p \in Parts}
@@ -103,7 +122,7 @@ Unescape(s) ==
             ELSE LET c == CHOOSE x \in hit : TRUE IN <<c>> \o Unescape(Drop(s, Len(EscOne(c))))
     ELSE <<s[1]>> \o Unescape(Tail(s))
 RefEscapeOK ==
-    IsCase /\ cs.v.t = "str" =>
+    IsCase /\ cs.v.t = "str" /\ cs.pos \notin (MayFail \cup {"litformat", "litreplace"}) =>
         LET o == Escape(cs.v.s) IN
         /\ ValidEscape(cs.v.s, o)
         /\ \A i \in 1..Len(o) : o[i] \notin {cLT, cGT, cDQ, cSQ}
